@@ -13,6 +13,12 @@ with what the real cobra commands hold.  Core-only.
   rpTree   gcetcbendorsement/cmd.MakeRoot                         (Find; EnableTraverseRunHooks)
   rsTree   the shipped RootCmd: + --auth_token, --timeout, PersistentPreRun, TraverseChildren (cmd/root.go init)
   npTree   cmd.MakeApp over testing/nonprod.localApp               (Find; nearest hook only)
+  apTree   cmd.MakeApp over components without flags of their own  (the recording doubles of harness/cli_run.go)
+
+Second half: the GLUE from what tokenising yields to the records the command-line models take — `keyFlagsOf`
+(→ KeyCli.CliFlags), `endorseFlagsOf` (→ EndorseCli.CliFlags; pflag's built-in value types, numeral syntax and the CSV
+reader as parameters `Numerals`), and the compositions `endorseOfArgv` / `endorseRun` = EndorseCli.cliRun ∘
+endorseFlagsOf ∘ Argv.runTool.  Streams `argvend` / `argvkey` run them against the real commands end to end.
 -/
 namespace GceTcb.ArgvTrees
 open GceTcb GceTcb.Argv
@@ -65,22 +71,196 @@ def localnonvcsFlagTable : List (String × String × String × String) := [("out
 /-- the rows of EndorseCli.flagTable that output.Options.AddFlags defines — on the ROOT command -/
 def isOutputFlag (r : String × String × String × String) : Bool := KeyCli.outputFlagTable.any (fun o => o.1 == r.1)
 
-def npCmds : List Cmd :=
+/-- cmd.MakeApp: the root (output.Options.AddFlags + app.Global's flags, persistent) and the four commands, each with
+    app.Global's flags, its own and its application component's (`extra`: app.Endorse's on `endorse`). -/
+def appCmds (wiring extra : List FlagSpec) : List Cmd :=
   [ { path := [], runnable := false, hook := true,
-      pflags := specsOf KeyCli.wiringFlagTable ++ specsOf KeyCli.outputFlagTable },
+      pflags := wiring ++ specsOf KeyCli.outputFlagTable },
     { path := ["endorse".toList], hook := true,
-      pflags := specsOf KeyCli.wiringFlagTable ++ specsOf (EndorseCli.flagTable.filter (fun r => !isOutputFlag r))
-                ++ specsOf localnonvcsFlagTable },
+      pflags := wiring ++ specsOf (EndorseCli.flagTable.filter (fun r => !isOutputFlag r)) ++ extra },
     { path := ["bootstrap".toList], hook := true,
-      pflags := specsOf KeyCli.wiringFlagTable ++ specsOf KeyCli.bootstrapFlagTable },
+      pflags := wiring ++ specsOf KeyCli.bootstrapFlagTable },
     { path := ["rotate".toList], hook := true,
-      pflags := specsOf KeyCli.wiringFlagTable ++ specsOf KeyCli.rotateFlagTable },
+      pflags := wiring ++ specsOf KeyCli.rotateFlagTable },
     { path := ["wipeout".toList], hook := true,
-      pflags := specsOf KeyCli.wiringFlagTable ++ specsOf KeyCli.wipeoutFlagTable } ]
+      pflags := wiring ++ specsOf KeyCli.wipeoutFlagTable } ]
+
+def npCmds : List Cmd := appCmds (specsOf KeyCli.wiringFlagTable) (specsOf localnonvcsFlagTable)
 
 def npTree : Tree := { cmds := npCmds, traverse := false, runHooks := false }
 
+/-- cmd.MakeApp over components that define no flags of their own (cmd.PartialComponent without FAddFlags): the tree
+    the streams c06cli / c15cli run `endorse` on (the recording doubles of harness/cli_run.go). -/
+def apTree : Tree := { cmds := appCmds [] [], traverse := false, runHooks := false }
+
 def treeNamed (s : String) : Option Tree :=
-  if s = "rp" then some rpTree else if s = "rs" then some rsTree else if s = "np" then some npTree else none
+  if s = "rp" then some rpTree else if s = "rs" then some rsTree else if s = "np" then some npTree
+  else if s = "ap" then some apTree else none
+
+/-! ## glue: what tokenising yields → the records the command-line models take
+
+`keyFlagsOf` (bootstrap / rotate / wipeout → `KeyCli.CliFlags`) and `endorseFlagsOf` (`endorse` →
+`EndorseCli.CliFlags`).  pflag semantics of the built-in types: EVERY occurrence is handed to the value's `Set` in
+argv order; String / Bool / numeric values keep the last one, `StringSlice` replaces its default by the first
+occurrence and appends the later ones; a `Set` that refuses ends the parse (phase `parse`).  The flag types whose
+`Set` is repository code (`timeFlag`, `amdProductFlag`, `bigintFlag`) get every occurrence in order — their rules
+are in the command-line models.  Numeral syntax (strconv.ParseUint / ParseInt with base 0) and the CSV reader of
+`StringSlice` stay PARAMETERS (`Numerals`), as numeral syntax is in Model/EndorseCli.lean ("the number written"). -/
+
+def lastStr (n : String) (dflt : String) (os : List Occ) : String :=
+  match lastOcc n.toList os with
+  | some v => String.ofList v
+  | none => dflt
+
+/-- pflag Bool: the last occurrence (its text was checked by `runTool`), default false. -/
+def lastBool (n : String) (os : List Occ) : Bool :=
+  match lastOcc n.toList os with
+  | some v => (parseBool v).getD false
+  | none => false
+
+/-- every occurrence in order -/
+def everyOcc (n : String) (os : List Occ) : List String :=
+  (os.filter (fun o => o.1 == n.toList)).map (fun o => String.ofList o.2)
+
+/-- The record of Model/KeyCli.lean from what tokenising yields. -/
+def keyFlagsOf (sub : KeyCli.Sub) (os : List Occ) (pos : List Tok) : KeyCli.CliFlags :=
+  { sub := sub
+    rootKeyCn := lastStr "root_key_cn" "GCE-cc-tcb-root" os
+    signingKeyCn := lastStr "signing_key_cn" "GCE-uefi-signer" os
+    rootKeySerial := everyOcc "root_key_serial" os
+    initialSigningKeySerial := everyOcc "initial_signing_key_serial" os
+    rotatedKeySerialOverride := everyOcc "rotated_key_serial_override" os
+    timestamp := everyOcc "timestamp" os
+    forceProdWipeout := lastBool "force_prod_wipeout" os
+    overwrite := lastBool "overwrite" os
+    keepGoing := lastBool "keep_going" os
+    args := pos.map String.ofList
+    keyDir := lastStr "key_dir" "private_keys" os
+    bucketRoot := lastStr "bucket_root" "" os
+    bucket := lastStr "bucket" "certs-dev" os
+    certDir := lastStr "cert_dir" "signer_certs" os
+    rootPath := lastStr "root_path" "" os }
+
+def subOf (c : List Tok) : Option KeyCli.Sub :=
+  if c = ["bootstrap".toList] then some .bootstrap else if c = ["rotate".toList] then some .rotate
+  else if c = ["wipeout".toList] then some .wipeout else none
+
+/-- Parameters of `endorseFlagsOf`. -/
+structure Numerals where
+  /-- strconv.ParseUint(·, 0, n): the number written when the text is a numeral of Go's base-0 syntax (whatever its
+      size: the range check is explicit below), `none` when it is not -/
+  uint : String → Option Nat
+  /-- strconv.ParseInt(·, 0, 64), likewise -/
+  int : String → Option Int
+  /-- pflag's readAsCSV of one `StringSlice` occurrence (encoding/csv, one record); "" is the empty list -/
+  csv : String → Option (List String)
+
+/-- go: unicode.IsSpace -/
+def goSpace (c : Char) : Bool :=
+  c == '\t' || c == '\n' || c.toNat == 0x0B || c.toNat == 0x0C || c == '\r' || c == ' ' || c.toNat == 0x85 ||
+  c.toNat == 0xA0 || c.toNat == 0x1680 || (0x2000 ≤ c.toNat && c.toNat ≤ 0x200A) || c.toNat == 0x2028 ||
+  c.toNat == 0x2029 || c.toNat == 0x202F || c.toNat == 0x205F || c.toNat == 0x3000
+
+/-- go: strings.TrimSpace (pflag's bytesHexValue.Set trims before decoding) -/
+def trimSpace (s : String) : String :=
+  String.ofList ((s.toList.dropWhile goSpace).reverse.dropWhile goSpace).reverse
+
+def uintsOk (N : Numerals) (bound : Nat) (l : List String) : Bool :=
+  l.all fun t => match N.uint t with | some v => decide (v < bound) | none => false
+
+def intsOk (N : Numerals) (l : List String) : Bool :=
+  l.all fun t => match N.int t with | some v => decide (-(2 ^ 63) ≤ v ∧ v < 2 ^ 63) | none => false
+
+def lastUint (N : Numerals) (n : String) (dflt : Nat) (os : List Occ) : Nat :=
+  match lastOcc n.toList os with
+  | some v => (N.uint (String.ofList v)).getD dflt
+  | none => dflt
+
+def lastInt (N : Numerals) (n : String) (dflt : Int) (os : List Occ) : Int :=
+  match lastOcc n.toList os with
+  | some v => (N.int (String.ofList v)).getD dflt
+  | none => dflt
+
+/-- go: stringSliceValue.Set over all occurrences: the first replaces the default (nil), later ones append. -/
+def csvAll (N : Numerals) : List String → Option (List String)
+  | [] => some []
+  | t :: ts =>
+    match N.csv t, csvAll N ts with
+    | some a, some b => some (a ++ b)
+    | _, _ => none
+
+/-- The record of Model/EndorseCli.lean from the occurrences tokenising yields for `endorse`, or the refusal of a
+    built-in value type's `Set` (`parse:<flag>`; which one pflag meets first depends on argv order — only the
+    phase is observable).  Positional words are ignored by the command (`Args` is nil, RunE drops them). -/
+def endorseFlagsOf (N : Numerals) (os : List Occ) : Outcome EndorseCli.CliFlags :=
+  if !uintsOk N (2 ^ 64) (everyOcc "clspec" os) then .err "parse:clspec"
+  else if !uintsOk N (2 ^ 32) (everyOcc "snp_launch_vmsas" os) then .err "parse:snp_launch_vmsas"
+  else if !intsOk N (everyOcc "commit_retries" os) then .err "parse:commit_retries"
+  else if !(everyOcc "commit" os).all (fun t => (hexDecode (trimSpace t)).isSome) then .err "parse:commit"
+  else
+    match csvAll N (everyOcc "tdx_machine_shapes" os) with
+    | none => .err "parse:tdx_machine_shapes"
+    | some shapes =>
+      .ok { addSnp := lastBool "add_snp" os
+            addTdx := lastBool "add_tdx" os
+            uefi := lastStr "uefi" "" os
+            svsmPath := lastStr "svsm_path" "" os
+            svsmSnpMeasurementPath := lastStr "svsm_snp_measurement_path" "" os
+            candidateName := lastStr "candidate_name" "" os
+            releaseBranch := lastStr "release_branch" "" os
+            clspec := lastUint N "clspec" 0 os
+            commit := trimSpace (lastStr "commit" "" os)
+            commitRetries := lastInt N "commit_retries" 5 os
+            outDir := lastStr "out_dir" "" os
+            dryRun := lastBool "dry_run" os
+            timestamp := everyOcc "timestamp" os
+            snpFamilyId := lastStr "snp_family_id" "" os
+            snpImageId := lastStr "snp_image_id" "" os
+            snpLaunchVmsas := lastUint N "snp_launch_vmsas" 0 os
+            snpProduct := everyOcc "snp_product" os
+            tdxIncludeEarlyAccept := lastBool "tdx_include_early_accept" os
+            tdxMachineShapes := shapes
+            measurementOnly := lastBool "measurement_only" os
+            snapshotDir := lastStr "snapshot_dir" "" os
+            overwrite := lastBool "overwrite" os }
+
+def endorsePath : List Tok := ["endorse".toList]
+
+/-- What a run of `<tool> argv` is for the `endorse` model: the record, a refusal before any hook, usage (exit
+    status 0, nothing runs), or another command. -/
+inductive EndorseArgv where
+  | flags (fl : EndorseCli.CliFlags) (pos : List Tok)
+  | refused (cls : String)
+  | usage
+  | other (cmd : List Tok)
+
+/-- cobra's own commands (`help`, `completion …`, `__complete`): no code of the repository runs. -/
+def builtinCmd : List Tok → Bool
+  | w :: _ => w == "help".toList || w == "completion".toList || w == completeName
+  | [] => false
+
+/-- `T`: `apTree` or `npTree`. -/
+def endorseOfArgv (T : Tree) (N : Numerals) (argv : List Tok) : EndorseArgv :=
+  match runTool T argv with
+  | .err _ _ _ => .refused "parse:argv"
+  | .help _ _ _ => .usage
+  | .run c os pos _ =>
+    if c = endorsePath then
+      match endorseFlagsOf N os with
+      | .ok fl => .flags fl pos
+      | .err e => .refused e
+      | .panic s => .refused s
+    else if builtinCmd c then .usage
+    else .other c
+
+/-- The whole `endorse` command over raw argv: `EndorseCli.cliRun ∘ endorseFlagsOf ∘ tokenise`. -/
+def endorseRun (T : Tree) (N : Numerals) (P : EndorseCli.Params) (Pr : Endorse.Prims) (Tb : Endorse.Tables)
+    (E : EndorseCli.Env) (keys : Option Endorse.Keys) (vcs : Option (List Commit.Attempt))
+    (vcss : List (List Commit.Attempt)) (argv : List String) : VF.Run :=
+  match endorseOfArgv T N (argv.map String.toList) with
+  | .flags fl _ => EndorseCli.cliRun P Pr Tb E fl keys vcs vcss
+  | .refused e => ⟨[], .err e⟩
+  | .usage => ⟨[], .ok ()⟩
+  | .other _ => ⟨[], .err "other-command"⟩
 
 end GceTcb.ArgvTrees
